@@ -92,12 +92,39 @@ class Extractor:
         finally:
             self.stack.pop()
 
+    def terminates(self, f, i):
+        """statement i never completes normally (ends in return / throw on every path)"""
+        n = f.nodes[i]
+        k = n['k']
+        if k == 'ReturnStmt':
+            return True
+        if k in ('ExprWithCleanups',) and n['ch']:
+            return self.terminates(f, n['ch'][0])
+        if k == 'CXXThrowExpr':
+            return True
+        if k == 'CompoundStmt':
+            return bool(n['ch']) and self.terminates(f, n['ch'][-1])
+        if k == 'IfStmt':
+            return 'else' in n and self.terminates(f, n['then']) and self.terminates(f, n['else'])
+        return False
+
     def stmt(self, f, R, i, subst, depth):
         n = f.nodes[i]
         k = n['k']
         if k == 'CompoundStmt':
             out = []
-            for c in n['ch']:
+            for j, c in enumerate(n['ch']):
+                m = f.nodes[c]
+                # `if (c) { I/O ...; return; }  rest`  is  `if (c) { I/O } else { rest }`
+                if m['k'] == 'IfStmt' and 'else' not in m and self.terminates(f, m['then']):
+                    th = self.stmt(f, R, m['then'], subst, depth)
+                    if th:
+                        rest = []
+                        for c2 in n['ch'][j + 1:]:
+                            rest.extend(self.stmt(f, R, c2, subst, depth))
+                        out.extend(self.expr_items(f, R, m['cond'], subst, depth))
+                        out.append(('alt', substitute(R.render(m['cond']), subst), th, rest, m['id'], f))
+                        return out
                 out.extend(self.stmt(f, R, c, subst, depth))
             return out
         if k == 'IfStmt':
